@@ -210,10 +210,10 @@ theorem getPeer_nb (e : Engine) : getPeer e "n/b" = lookup e "n/b" :=
 def nsN : NsObj := ⟨"n", []⟩
 def podA : Pod :=
   { ns := "n", name := "a", labels := [("app", "a")], ports := [], ownerKind := "ReplicaSet",
-    ownerName := "ra", variant := "map[app:a]" }
+    ownerName := "ra", variant := "map[app:a]$" }
 def podB : Pod :=
   { ns := "n", name := "b", labels := [("app", "b")], ports := [], ownerKind := "ReplicaSet",
-    ownerName := "rb", variant := "map[app:b]" }
+    ownerName := "rb", variant := "map[app:b]$" }
 /-- selects `b`, affects ingress, allows nothing -/
 def denyB : NetPol :=
   { ns := "n", name := "deny-b", podSel := ⟨[("app", "b")], []⟩, types := [.ingress],
@@ -224,7 +224,7 @@ def setup : List HOp := [.ins (.ns nsN), .ins (.pod podA), .ins (.pod podB)]
 def query : HOp := .q "n/a" "n/b" "TCP" "80"
 def hist : List HOp := setup ++ [query, .ins (.np denyB)]
 
-example : variantOf podA.labels = podA.variant := by decide +kernel
+example : variantOf podA.labels podA.ports = podA.variant := by decide +kernel
 
 /-- first query: allowed -/
 theorem first_answer : ((init.run setup).checkIfAllowed "n/a" "n/b" "TCP" "80").1 = .ok true := by
@@ -235,7 +235,7 @@ theorem first_answer : ((init.run setup).checkIfAllowed "n/a" "n/b" "TCP" "80").
 theorem run_append (s : EState) (a b : List HOp) : s.run (a ++ b) = (s.run a).run b := by
   simp [EState.run, List.foldl_append]
 
-def key : String := "n/ra/map[app:a]/n/rb/map[app:b]/TCP/80"
+def key : String := "n/ra/map[app:a]$/n/rb/map[app:b]$/TCP/80"
 
 /-- the state after the first query: the verdict is cached under the owner key -/
 theorem after_first : init.run (setup ++ [query]) =
@@ -270,7 +270,7 @@ theorem stale_would_leak :
   rfl
 
 def exAttrs (k : String) : Labels × List CPort :=
-  if k = "n/ra/map[app:a]" then ([("app", "a")], []) else ([("app", "b")], [])
+  if k = "n/ra/map[app:a]$" then ([("app", "a")], []) else ([("app", "b")], [])
 def exNsOf (_ : String) : String := "n"
 
 /-- the hypothesis of `cache_transparent` is satisfiable -/
